@@ -229,6 +229,31 @@ static int rc(void) {
 }
 
 
+
+/* isub <I (4 tokens)>: the value argument of collapse_to / set_a / set_b is a SUB-OBJECT of the output interval itself
+ * (its own lower or upper end): the result must equal the call with a separate copy of that value. */
+static int isub(void) {
+  lp_interval_t A; mkinterval(&A, 1);
+  if (A.is_point) { pinterval(&A); printf(" (point: nothing to alias)"); lp_interval_destruct(&A); return 1; }
+  lp_interval_t r; lp_value_t c;
+  /* collapse to the upper end (valid when the upper end is a finite value) */
+  /* documented domain: the end must belong to the interval (closed end) */
+  if (!A.b_open && A.b.type != LP_VALUE_PLUS_INFINITY && A.b.type != LP_VALUE_MINUS_INFINITY) {
+    lp_interval_construct_copy(&r, &A); lp_value_construct_copy(&c, &r.b); lp_interval_collapse_to(&r, &c); printf("cb:"); pinterval(&r); lp_value_destruct(&c); lp_interval_destruct(&r);
+    lp_interval_construct_copy(&r, &A); lp_interval_collapse_to(&r, &r.b); printf(" cb:"); pinterval(&r); lp_interval_destruct(&r);
+    lp_interval_construct_copy(&r, &A); lp_value_construct_copy(&c, &r.b); lp_interval_set_a(&r, &c, 0); printf(" sa:"); pinterval(&r); lp_value_destruct(&c); lp_interval_destruct(&r);
+    lp_interval_construct_copy(&r, &A); lp_interval_set_a(&r, &r.b, 0); printf(" sa:"); pinterval(&r); lp_interval_destruct(&r);
+  }
+  if (!A.a_open && A.a.type != LP_VALUE_PLUS_INFINITY && A.a.type != LP_VALUE_MINUS_INFINITY) {
+    lp_interval_construct_copy(&r, &A); lp_value_construct_copy(&c, &r.a); lp_interval_collapse_to(&r, &c); printf(" ca:"); pinterval(&r); lp_value_destruct(&c); lp_interval_destruct(&r);
+    lp_interval_construct_copy(&r, &A); lp_interval_collapse_to(&r, &r.a); printf(" ca:"); pinterval(&r); lp_interval_destruct(&r);
+    lp_interval_construct_copy(&r, &A); lp_value_construct_copy(&c, &r.a); lp_interval_set_b(&r, &c, 0); printf(" sb:"); pinterval(&r); lp_value_destruct(&c); lp_interval_destruct(&r);
+    lp_interval_construct_copy(&r, &A); lp_interval_set_b(&r, &r.a, 0); printf(" sb:"); pinterval(&r); lp_interval_destruct(&r);
+  }
+  lp_interval_destruct(&A);
+  return 1;
+}
+
 /* vlist <nvars> <id> <id> ...: variable lists and orders over a LARGE database: ids far above the number of pushed
  * variables (index maps must grow to cover the id).  Prints index/contains of every id (and of two ids not pushed), the
  * order comparison of the first two, then pops everything. */
@@ -265,6 +290,7 @@ int main(void) {
     else if (is_op("idst")) ok = idst();
     else if (is_op("rc")) ok = rc();
     else if (is_op("vlist")) ok = vlist();
+    else if (is_op("isub")) ok = isub();
     if (!ok) printf("UNKNOWN-OP");
     end_case();
   }
